@@ -37,10 +37,10 @@ def main():
             if line.startswith("SURVEY "):
                 res = json.loads(line[7:])
         res["wall_s"] = round(time.time() - t0)
-        res["target"] = meta.get("property")
-        res["detected"] = meta.get("property") in res.get("violated", {})
+        res["target"] = (meta.get("breaks_property") or meta.get("property"))
+        res["detected"] = (meta.get("breaks_property") or meta.get("property")) in res.get("violated", {})
         json.dump(res, open(os.path.join(d, "result.json"), "w"), indent=1)
-        print(mid, "target", meta.get("property"), "DETECTED" if res["detected"] else "MISSED",
+        print(mid, "target", (meta.get("breaks_property") or meta.get("property")), "DETECTED" if res["detected"] else "MISSED",
               "violated:", sorted(res.get("violated", {})), "nonconf:", res.get("nonconf"), "errors:", res.get("errors"), flush=True)
 
 
